@@ -11,6 +11,7 @@
 #include "oomd/engine/BasePlugin.h"
 #include "oomd/engine/PrekillHook.h"
 #include "oomd/engine/Ruleset.h"
+#include "oomd/Stats.h"
 
 namespace sim {
 
@@ -365,11 +366,17 @@ class SimWrap : public Oomd::Engine::BasePlugin {
     record(std::move(e));
     if (g_onWrapEnter)
       g_onWrapEnter(wid_);
+    auto statOf = [](const char* k) {
+      auto st = Oomd::getStats();
+      auto it = st.find(k);
+      return it == st.end() ? 0 : it->second;
+    };
+    int killsBefore = statOf("oomd.kills");
     auto r = inner_->run(ctx);
     const char* rs = r == Oomd::Engine::PluginRet::CONTINUE
         ? "C"
         : (r == Oomd::Engine::PluginRet::STOP ? "S" : "A");
-    record("wrap", wid_, "exit", rs, serial_);
+    record("wrap", wid_, "exit", rs, serial_, statOf("oomd.kills") - killsBefore);
     return r;
   }
   static SimWrap* create() {
